@@ -397,6 +397,21 @@ Definition w_c11_trx_layout (a : list Z) : list Z :=
   | _ => [-999]
   end.
 
+(* [i] -> row i of the specification table as task, combination, tn rule (0 all, 1 even, 2 odd), mode (0 Block, 1 BlockDL, 2 Tch),
+   lchan, SACCH lchan or -1; [] past the end (lets the Python oracle check that it uses the same table) *)
+Definition w_c11_row (a : list Z) : list Z :=
+  match a with
+  | [i] =>
+      if i <? 0 then [] else
+      match nth_error c11_rows (Z.to_nat i) with
+      | Some r => [r_task r; r_cfg r; match r_tn r with TnAll => 0 | TnEven => 1 | TnOdd => 2 end;
+                   match r_mode r with Block => 0 | BlockDL => 1 | Tch => 2 end; r_lchan r;
+                   match r_sacch r with Some s => s | None => -1 end]
+      | None => []
+      end
+  | _ => [-999]
+  end.
+
 (* [fnmax] (0: one cycle per row) -> first (row index, tn, cur) that breaks the block-start / frame-by-frame agreement, [] if none *)
 Definition w_c11_find_bad (a : list Z) : list Z :=
   match a with
